@@ -448,6 +448,25 @@ impl<'a> Gen<'a> {
                 if self.rng.pct(30) {
                     ops.push(Op::Restart { h: 0 });
                 }
+                if self.rng.pct(50) {
+                    // the learned text once more (its choice may sit anywhere in a long list)
+                    self.type_text(&mut ops, 0, &t, if valid_sel { Sel::Presel } else { Sel::Raw(0) });
+                    ops.push(Op::Finish { h: 0 });
+                }
+                if self.rng.pct(30) {
+                    // the same text once more, then an option that changes what is offered for
+                    // it (the typed English text, the emoji) is switched while idle, then the
+                    // same text again: whatever was remembered about its list is stale
+                    let sel0 = if valid_sel { Sel::Presel } else { Sel::Raw(0) };
+                    self.type_text(&mut ops, 0, &t, sel0);
+                    ops.push(Op::Finish { h: 0 });
+                    let mut c = cfgs[0];
+                    c.opts ^= *self.rng.pick(&[ENGLISH, ANSI, ENGLISH | ANSI, SMART_QUOTE]);
+                    cfgs[0] = c;
+                    ops.push(Op::Update { h: 0, cfg: c });
+                    self.type_text(&mut ops, 0, &t, sel0);
+                    ops.push(Op::Finish { h: 0 });
+                }
                 if self.rng.pct(70) {
                     // ... and the same text again with a known suffix behind it
                     let s = format!("{}{}", t, self.short_suffix());
@@ -511,7 +530,7 @@ impl<'a> Gen<'a> {
                 // after a restored backup), or the clock moves
                 let w = self.word();
                 let core: String = w.chars().filter(|c| c.is_ascii_alphabetic()).take(8).collect();
-                let v = self.autocorrect_value();
+                let doc = self.autocorrect_doc(&core);
                 let mt = match self.rng.weighted(&[55, 13, 22, 10]) {
                     0 => Mt::Now,
                     1 => Mt::Tie,
@@ -520,7 +539,16 @@ impl<'a> Gen<'a> {
                 };
                 ops.push(Op::Clock { dt: self.clock_step(50) });
                 if !core.is_empty() {
-                    ops.push(Op::SetFile { file: FileId::Autocorrect, st: FileSt::Text(serde_json::json!({ core: v }).to_string()), mt });
+                    ops.push(Op::SetFile { file: FileId::Autocorrect, st: FileSt::Text(doc), mt });
+                    if cfgs[h].is_phonetic() && self.rng.pct(55) {
+                        // the context re-loads the list while idle, and the word with the new
+                        // entry is composed
+                        ops.push(Op::Finish { h: hb });
+                        ops.push(Op::Update { h: hb, cfg: cfgs[h] });
+                        let s = sel(self);
+                        self.type_text(&mut ops, hb, &core, s);
+                        since_term[h] += core.len();
+                    }
                 }
                 continue;
             }
@@ -767,6 +795,19 @@ impl<'a> Gen<'a> {
                 if !cands.is_empty() {
                     let c = cands[self.rng.usize(cands.len())].clone();
                     store.insert(w, serde_json::Value::String(c));
+                }
+            }
+        }
+        // what a learning commit of a wrapped text or of an emoticon's emoji leaves behind: the
+        // word part of the target as key, a candidate of the whole target as value
+        if cfg.has(PHON_SUG) && self.rng.pct(30) {
+            let core: String = target.chars().filter(|c| c.is_ascii_alphabetic()).collect();
+            if !core.is_empty() && core != target {
+                let mut probe: Option<Host> = None;
+                let cands = self.probe_candidates(&mut probe, cfg.with(SMART_QUOTE, false), &target);
+                if !cands.is_empty() {
+                    let c = cands[self.rng.usize(cands.len())].clone();
+                    store.insert(core, serde_json::Value::String(c));
                 }
             }
         }
@@ -1100,7 +1141,7 @@ impl<'a> Gen<'a> {
             7 => vec![fm::ZOFOLA],
             8 => Self::values_of_class(l, |s| !single(s)),
             9 => Self::values_of_class(l, |s| single(s) && first(s).is_ascii_punctuation()),
-            10 => vec!["\u{09D7}", "\u{200C}", "\u{200D}"],
+            10 => vec!["\u{09D7}", "\u{200C}", "\u{200D}", "\u{09BC}"],
             11 => Self::values_of_class(l, |s| single(s) && ('\u{09E6}'..='\u{09EF}').contains(&first(s))),
             12 => vec!["\u{09C1}", "\u{09C2}", "\u{09C3}"],
             // characters beyond the Bengali block (2, 3 and 4 bytes; a layout may bind any)
@@ -1257,11 +1298,32 @@ impl<'a> Gen<'a> {
         // past their first capacity, lists of long words)
         let n = if self.rng.pct(6) { self.rng.range(18, 48) as usize } else { self.rng.range(1, 10) as usize };
         let h_start = ops.len();
-        word_ops(self, &mut ops, n);
-        let h_ops: Vec<Op> = ops[h_start..].to_vec();
+        // a family of words in the history: a stem is learned, the stem with a known suffix is
+        // composed and ended, the stem is learned again with another candidate - and the
+        // continuation composes the suffixed form again (what the ended word left behind was
+        // derived from a choice that has been replaced since)
+        let mut family_word: Option<String> = None;
+        if cfg.is_phonetic() && cfg.has(PHON_SUG) && self.rng.pct(8) {
+            let stem: String = self.rng.pick(&self.env.dict_spellings).chars().filter(|c| c.is_ascii_alphabetic()).take(5).collect();
+            if !stem.is_empty() {
+                let suffixed = format!("{}{}", stem, self.short_suffix());
+                self.type_text(&mut ops, 0, &stem, Sel::Presel);
+                ops.push(Op::Commit { h: 0, idx: Idx::Rel(self.rng.range(1, 3) as u8) });
+                self.type_text(&mut ops, 0, &suffixed, Sel::Presel);
+                let t = self.terminator(0, false);
+                ops.push(t);
+                self.type_text(&mut ops, 0, &stem, Sel::Presel);
+                // (the terminating event below is most often a commit of another candidate)
+                family_word = Some(suffixed);
+            }
+        }
+        if family_word.is_none() {
+            word_ops(self, &mut ops, n);
+        }
+        let h_ops: Vec<Op> = if family_word.is_some() { Vec::new() } else { ops[h_start..].to_vec() };
         // terminating event
-        match self.rng.weighted(&[30, 25, 20, 25]) {
-            0 => ops.push(Op::Commit { h: 0, idx: Idx::Rel(self.rng.next_u64() as u8) }),
+        match self.rng.weighted(&if family_word.is_some() { [85, 5, 5, 5] } else { [30, 25, 20, 25] }) {
+            0 => ops.push(Op::Commit { h: 0, idx: if family_word.is_some() { Idx::Other(self.rng.next_u64() as u8) } else { Idx::Rel(self.rng.next_u64() as u8) } }),
             1 => ops.push(Op::Finish { h: 0 }),
             2 => ops.push(Op::Bs { h: 0, ctrl: true }),
             _ => ops.push(Op::Drain { h: 0 }),
@@ -1294,7 +1356,9 @@ impl<'a> Gen<'a> {
                 ops.push(Op::Bs { h: 0, ctrl: false }); // backspace while idle
             }
             let n = if self.rng.pct(4) { self.rng.range(18, 48) as usize } else { self.rng.range(1, 8) as usize };
-            if !h_ops.is_empty() && self.rng.pct(22) {
+            if let Some(w) = family_word.take() {
+                self.type_text(&mut ops, 0, &w, Sel::Presel);
+            } else if !h_ops.is_empty() && self.rng.pct(22) {
                 // the same word (or a beginning of it) again
                 let upto = if self.rng.coin() { h_ops.len() } else { self.rng.range(1, h_ops.len() as u64) as usize };
                 ops.extend(h_ops[..upto].iter().cloned());
@@ -1364,6 +1428,17 @@ impl<'a> Gen<'a> {
         cfg.opts |= PHON_SUG;
         let mut ops = vec![Op::Spawn { h: 0, cfg }];
         let mut learned: Vec<String> = Vec::new();
+        // "later in the same context": in some runs a second application uses the keyboard over
+        // the same directory. It is started first and learns later, so its saves write a map
+        // without the first context's choices over the store; the user's auto-correct list is
+        // edited and the first context re-loads its configuration. What the first context has
+        // learned it must still know (nothing is demanded of a restart in these runs: between
+        // two live writers the last one wins, which no statement excludes).
+        let two_writers = self.rng.pct(8);
+        if two_writers {
+            ops.push(Op::Spawn { h: 1, cfg });
+        }
+        let mut other_saved = false;
         // a user who has been learning for years: now and then the store already holds several
         // hundred choices (tens of kilobytes), a few of them for words this run types again
         let mut prelude = Prelude::default();
@@ -1430,18 +1505,33 @@ impl<'a> Gen<'a> {
                         _ => ops.push(Op::Finish { h: 0 }),
                     }
                 }
-                if self.rng.pct(15) {
+                if !two_writers && self.rng.pct(15) {
                     ops.push(Op::Restart { h: 0 });
                 }
                 ops.push(Op::Update { h: 0, cfg });
             }
-            if restarts < 4 && self.rng.pct(22) {
+            if two_writers && !learned.is_empty() && self.rng.pct(if other_saved { 25 } else { 60 }) {
+                let t = self.learn_text();
+                self.type_and_refresh(&mut ops, 1, &t);
+                ops.push(Op::Commit { h: 1, idx: self.learn_idx() });
+                other_saved = true;
+                if self.rng.pct(70) {
+                    let w: String = self.word().chars().filter(|c| c.is_ascii_alphabetic()).take(8).collect();
+                    if !w.is_empty() {
+                        let doc = self.autocorrect_doc(&w);
+                        ops.push(Op::Clock { dt: self.clock_step(20) });
+                        ops.push(Op::SetFile { file: FileId::Autocorrect, st: FileSt::Text(doc), mt: Mt::Now });
+                        ops.push(Op::Update { h: 0, cfg });
+                    }
+                }
+            }
+            if !two_writers && restarts < 4 && self.rng.pct(22) {
                 ops.push(Op::Restart { h: 0 });
                 restarts += 1;
             }
         }
         // final pass: everything learned is retyped once more, after a restart half the time
-        if self.rng.coin() {
+        if !two_writers && self.rng.coin() {
             ops.push(Op::Restart { h: 0 });
         }
         let mut again = learned.clone();
@@ -1510,6 +1600,35 @@ impl<'a> Gen<'a> {
 
     /// A replacement text for the user's auto-correct list: normally Avro-style Latin
     /// text, but a user may just as well enter the Bengali text (or an emoji) directly.
+    /// A valid auto-correct document with an entry for `core`. Now and then the entries refer
+    /// to one another: the replacement of one word is itself a word of the list (a chain, two
+    /// entries naming each other, an entry naming itself) - legal, and what "a short form of a
+    /// short form" looks like.
+    pub fn autocorrect_doc(&mut self, core: &str) -> String {
+        let mut m = serde_json::Map::new();
+        if self.rng.pct(14) {
+            let other = if self.rng.coin() { format!("{}{}", core, self.short_suffix()) } else { self.random_letters(3, 6).to_ascii_lowercase() };
+            match self.rng.weighted(&[45, 35, 20]) {
+                0 => {
+                    m.insert(core.to_string(), serde_json::Value::String(other.clone()));
+                    m.insert(other, serde_json::Value::String(core.to_string()));
+                }
+                1 => {
+                    let third = self.autocorrect_value();
+                    m.insert(core.to_string(), serde_json::Value::String(other.clone()));
+                    m.insert(other, serde_json::Value::String(third));
+                }
+                _ => {
+                    m.insert(core.to_string(), serde_json::Value::String(core.to_string()));
+                }
+            }
+        } else {
+            let v = self.autocorrect_value();
+            m.insert(core.to_string(), serde_json::Value::String(v));
+        }
+        serde_json::Value::Object(m).to_string()
+    }
+
     pub fn autocorrect_value(&mut self) -> String {
         match self.rng.weighted(&[70, 12, 8, 5, 5]) {
             0 => self.random_letters(2, 6).to_ascii_lowercase(),
@@ -1604,6 +1723,22 @@ impl<'a> Gen<'a> {
                         let st = if self.rng.coin() { DirState::Missing } else { DirState::ReadOnly };
                         ops.push(Op::SetDir { st });
                         next = if self.rng.coin() { 0 } else { 1 };
+                        if self.rng.pct(30) {
+                            // a long outage: several learning commits in a row fail to save
+                            // before the directory is back ("loses at most that one" has no
+                            // limit on how often it happens), then one more commit
+                            for _ in 0..self.rng.range(3, 9) {
+                                let t = if self.rng.pct(50) { self.rng.pick(&words).clone() } else {
+                                    let t = self.learn_text();
+                                    words.push(t.clone());
+                                    t
+                                };
+                                self.type_and_refresh(&mut ops, h, &t);
+                                ops.push(Op::Commit { h, idx: self.learn_idx() });
+                            }
+                            ops.push(Op::Heal);
+                            next = 0;
+                        }
                     }
                     8 => {
                         let fault = match self.rng.weighted(&[20, 20, 15, 25, 20]) {
@@ -1683,8 +1818,7 @@ impl<'a> Gen<'a> {
                     // the editor rewrites the user's auto-correct list (valid document)
                     let w = if self.rng.pct(60) { focus.clone() } else { self.rng.pick(&words).clone() };
                     let core: String = w.chars().filter(|c| c.is_ascii_alphabetic()).collect();
-                    let value = self.autocorrect_value();
-                    let doc = serde_json::json!({ core: value }).to_string();
+                    let doc = self.autocorrect_doc(&core);
                     ops.push(Op::Clock { dt: 1_000_000_000 });
                     let mt = match self.rng.weighted(&[72, 8, 12, 8]) {
                         0 => Mt::Now,
@@ -1732,6 +1866,17 @@ impl<'a> Gen<'a> {
             c.data = data;
             c
         };
+        // a fixed layout replaced by the user's customised copy of the same file in another
+        // directory (same file name), or the other way round
+        let (a, b) = if self.rng.pct(6) {
+            let mut a2 = a;
+            let mut b2 = b;
+            a2.layout = if self.rng.coin() { LayoutKind::Probhat } else { LayoutKind::ProbhatAlt };
+            b2.layout = if a2.layout == LayoutKind::Probhat { LayoutKind::ProbhatAlt } else { LayoutKind::Probhat };
+            (a2, b2)
+        } else {
+            (a, b)
+        };
         // option flips that matter most: the switches that decide what is loaded / shown
         let b = if a.is_phonetic() && self.rng.pct(25) {
             let mut c = a;
@@ -1772,8 +1917,7 @@ impl<'a> Gen<'a> {
         if self.rng.pct(15) {
             let w: String = self.rng.pick(&words).chars().filter(|c| c.is_ascii_alphabetic()).collect();
             if !w.is_empty() {
-                let v = self.autocorrect_value();
-                prelude.autocorrect = Some(serde_json::json!({ w: v }).to_string());
+                prelude.autocorrect = Some(self.autocorrect_doc(&w));
             }
         }
         let la = self.env.layout(a.layout);
